@@ -541,7 +541,13 @@ func (ex *Exec) doSelect(s *State, in *ssa.Select) Val {
 	var anyClosed []Term
 	for i, st := range in.States {
 		if st.Dir != types.RecvOnly {
-			ex.fail("select send unsupported")
+			// a send case: the channel's content is not modelled, the case may
+			// be taken at any time (it may also never be ready: the other
+			// cases stay possible)
+			conds = append(conds, Eq(idx, BVLit(uint64(i), 64)))
+			anyClosed = append(anyClosed, s.declare(ex.g.fresh("ready"), SBool))
+			ex.usedAssume["A-VALUECHAN: a send in a select may be taken at any time; what the channel holds is not modelled"] = true
+			continue
 		}
 		ch := ex.scalar(s, st.Chan)
 		if isValueChan(st.Chan.Type()) {
@@ -562,6 +568,9 @@ func (ex *Exec) doSelect(s *State, in *ssa.Select) Val {
 	ex.usedAssume["A-SIGNALCHAN: channels are signal-only (close/receive); a blocking receive continues only on a closed channel"] = true
 	tv := TupleV{Scalar{idx}, Scalar{TFalse}}
 	for _, st := range in.States {
+		if st.Dir != types.RecvOnly {
+			continue // only receive cases contribute a value to the result tuple
+		}
 		et := st.Chan.Type().Underlying().(*types.Chan).Elem()
 		if _, basic := et.Underlying().(*types.Basic); basic && isValueChan(st.Chan.Type()) {
 			tv = append(tv, ex.freshVal(s, et, "recv"))
